@@ -316,7 +316,14 @@ pub fn age_files(loc: &Path) {
 // ------------------------------------------------------------------------------------------------
 
 pub fn argv_for(inv: &Inv, ws: &Path, out: &Path, cfg_path: &Path) -> Vec<String> {
-    let mut a = vec!["typeshare".to_string(), ws.to_string_lossy().into_owned()];
+    let mut a = vec!["typeshare".to_string()];
+    if inv.roots.is_empty() {
+        a.push(ws.to_string_lossy().into_owned());
+    } else {
+        for r in &inv.roots {
+            a.push(ws.join(r).to_string_lossy().into_owned());
+        }
+    }
     a.push("--lang".into());
     a.push(inv.lang.clone());
     a.push("-c".into());
